@@ -351,6 +351,20 @@ func valueFor(t *rapid.T, l string, vp svc.ValuePredicate, want bool, size int) 
 	if v.Sign() < 0 {
 		v.SetInt64(0)
 	}
+	if size == 0 {
+		// a dynamic value read as an unsigned integer can have any length
+		switch rapid.IntRange(0, 5).Draw(t, l+"width") {
+		case 0:
+			// wider than a word: the low 256 bits alone would decide differently
+			k := int64(rapid.IntRange(1, 3).Draw(t, l+"hi"))
+			return new(big.Int).Add(v, new(big.Int).Mul(big.NewInt(k), two256)).Bytes()
+		case 1:
+			// wider than a word with zero high bytes: the same number
+			return append(make([]byte, rapid.IntRange(1, 40).Draw(t, l+"lead")), word(new(big.Int).Mod(v, two256))...)
+		case 2:
+			return v.Bytes() // minimal length, possibly empty
+		}
+	}
 	if size == 32 || size == 0 {
 		if v.Cmp(two256) >= 0 {
 			v.Sub(two256, big.NewInt(1))
